@@ -26,7 +26,7 @@ PROPS['C15'] = dict(
     rule='history scripts over one make_solver<runtime::preconditioner, runtime::solver::wrapper> object: 13 solver variants (8 solvers x sides, + LGMRES always_reset=false) x 6 preconditioners '
          '(3 AMG cells, relaxation, dummy, nested) x seeded scripts (quick 5 of length 6, thorough 400 of length 4..20) mixing solves (4 right-hand sides x 3 initial guesses), zero right-hand side, '
          'converged initial guess, failing calls (NaN / Inf / overflowing right-hand side, NaN guess, singular alternative matrix), alternative-matrix solves, precond().apply, make_solver::apply and '
-         'rebuild; plus solver objects with a harness preconditioner that throws in the middle of a solve, and skyline_lu histories. A case is non-trivial when its whole script ran; '
+         'rebuild; plus solver objects with a harness preconditioner that throws in the middle of a solve (sub throwing: within the first applications; sub midsolve: on the k-th application with k drawn after at least one complete restart cycle / BiCGStab(L) sweep / IDR(s) space of a short-cycle configuration, followed by ordinary solves), LGMRES with always_reset switched from false back to true between calls (equality demanded again from the first such call), and skyline_lu histories. A case is non-trivial when its whole script ran; '
          'distinct = distinct (sub-check, configuration, script) descriptor. Matrices: 5-point diffusion / convection-diffusion, n = 120..400.',
     exhaustive_note='the 13 x 6 (solver variant, preconditioner) grid is enumerated completely; scripts are sampled',
     min_nontrivial=dict(quick=300, thorough=25000),
